@@ -84,9 +84,13 @@ func (em *emitter) emitNodes(nodes []ast.Node) {
 				if node.Tree != nil {
 					inits := em.emitImport(node, true)
 					if len(inits) > 0 && !em.alreadyInitializedTemplatePkgs[node.Tree.Path] {
+						fb := em.fb
+						if em.templateInits != nil {
+							fb = em.templateInits
+						}
 						for _, initFunc := range inits {
-							index := em.fb.addFunction(initFunc)
-							em.fb.emitCallFunc(index, em.fb.currentStackShift(), nil)
+							index := fb.addFunction(initFunc)
+							fb.emitCallFunc(index, fb.currentStackShift(), nil)
 						}
 						em.alreadyInitializedTemplatePkgs[node.Tree.Path] = true
 					}
